@@ -63,6 +63,7 @@ type classSpec struct {
 	ctor     bool
 	javadoc  bool
 	unit     string // indentation unit
+	crlf     bool   // write the file with \r\n line ends
 	methods  []*methodSpec
 }
 
@@ -625,5 +626,10 @@ func renderClass(r *run.Rand, cs *classSpec) *Class {
 	}
 	w.add("}")
 	c.Text = strings.Join(w.lines, "\n") + "\n"
+	if cs.crlf {
+		// Windows line ends: the same lines, the same line numbers
+		c.Text = strings.ReplaceAll(c.Text, "\n", "\r\n")
+		c.CRLF = true
+	}
 	return c
 }
